@@ -277,7 +277,7 @@ def correspond(spec, seed, tier, outdir, replay=None, extra_args=None):
     if rc != 0:
         res.update(ok=False, error="harness build failed: " + o[-1500:], build_failed=True)
         return res
-    cmd = [hbin, "-seed", str(seed), "-tier", tier, "-out", outdir] + (extra_args or [])
+    cmd = [hbin] + list(spec.get("harness_args", [])) + ["-seed", str(seed), "-tier", tier, "-out", outdir] + (extra_args or [])
     if replay:
         cmd += ["-replay", replay]
     env = goenv()
